@@ -235,6 +235,22 @@ Definition chmod (fs : fsT) (p : path) (m : N) : fsT :=
   | None => fs
   end.
 
+(* Restorer.restoreNodeMetadataTo for a non-symlink node: refuses when a symlink sits at the path
+   (Lstat), otherwise chmod *)
+Definition restore_meta (fs : fsT) (p : path) (m : N) : fsT :=
+  match lstat fs p with
+  | LFound _ (ELink _) => fs
+  | _ => chmod fs p m
+  end.
+
+(* os.Link: the last component of old is not followed; the new name gets a copy of the entry (the shared
+   inode is modelled by applying later metadata changes to both names, see restore_hardlink) *)
+Definition link (fs : fsT) (old new : path) : fsT * st :=
+  match lstat fs old with
+  | LFound _ e => if is_dir e then (fs, Err) else create fs new e
+  | _ => (fs, Err)
+  end.
+
 (* os.RemoveAll: last component not followed; missing = ok *)
 Definition remove_all (fs : fsT) (p : path) : fsT * st :=
   match p with
@@ -281,11 +297,12 @@ Inductive node :=
 | NDir (n : name) (m : N) (sub : list node)
 | NLink (n : name) (t : path)
 | NSpec (n : name) (m : N)
-| NSock (n : name).
+| NSock (n : name)
+| NHard (n : name) (c m ino : N).   (* regular file with Links > 1; ino identifies its inode in the snapshot *)
 
 Definition node_name (nd : node) : name :=
   match nd with
-  | NFile n _ _ | NDir n _ _ | NLink n _ | NSpec n _ | NSock n => n
+  | NFile n _ _ | NDir n _ _ | NLink n _ | NSpec n _ | NSock n | NHard n _ _ _ => n
   end.
 
 (* byte-wise string order, Go: a <= b *)
@@ -374,29 +391,49 @@ Definition should_overwrite (o : opts) (fs : fsT) (p : path) : option bool :=
        | LFound _ _ => Some (o_existing o)
        end.
 
-Record p1state := mkP { p_fs : fsT; p_files : list (path * N); p_tracked : list path }.
+(* content number of files whose data pack is missing: the download fails, createFile is never reached *)
+Definition bad_content : N := 5.
+
+Record p1state := mkP { p_fs : fsT; p_files : list (path * N); p_tracked : list path;
+                        p_idx : list (N * path) (* HardlinkIndex: inode -> first location *) }.
+
+Fixpoint idx_find (ino : N) (l : list (N * path)) : option path :=
+  match l with
+  | [] => None
+  | (i, v) :: r => if N.eqb i ino then Some v else idx_find ino r
+  end.
+
+(* the regular-file part of pass 1's visitNode: overwrite check, registration with the file restorer *)
+Definition reg_file (o : opts) (T : path) (fs1 : fsT) (s : p1state) (idx : list (N * path))
+           (d : path) (n : name) (c : N) (loc : path) : p1state :=
+  match should_overwrite o fs1 (T ++ d ++ [n]) with
+  | Some true => mkP fs1 (p_files s ++ [(T ++ d ++ [n], c)]) (loc :: p_tracked s) idx
+  | _ => mkP fs1 (p_files s) (p_tracked s) idx
+  end.
 
 Definition pass1_ev (o : opts) (T : path) (s : p1state) (e : ev) : p1state :=
   match e with
-  | EvEnter d => mkP (fst (ensure_below (p_fs s) T d)) (p_files s) (p_tracked s)
+  | EvEnter d => mkP (fst (ensure_below (p_fs s) T d)) (p_files s) (p_tracked s) (p_idx s)
   | EvVisit d nd loc =>
       match ensure_below (p_fs s) T d with
       | (fs1, Ok) =>
           match nd with
-          | NFile n c _ =>
-              match should_overwrite o fs1 (T ++ d ++ [n]) with
-              | Some true => mkP fs1 (p_files s ++ [(T ++ d ++ [n], c)]) (loc :: p_tracked s)
-              | _ => mkP fs1 (p_files s) (p_tracked s)
+          | NFile n c _ => reg_file o T fs1 s (p_idx s) d n c loc
+          | NHard n c _ ino =>
+              match idx_find ino (p_idx s) with
+              | Some _ => mkP fs1 (p_files s) (p_tracked s) (p_idx s)   (* later link of a known inode *)
+              | None => reg_file o T fs1 s ((ino, loc) :: p_idx s) d n c loc
               end
-          | _ => mkP fs1 (p_files s) (p_tracked s)
+          | _ => mkP fs1 (p_files s) (p_tracked s) (p_idx s)
           end
-      | (fs1, _) => mkP fs1 (p_files s) (p_tracked s)
+      | (fs1, _) => mkP fs1 (p_files s) (p_tracked s) (p_idx s)
       end
   | EvLeave _ _ _ _ => s
   end.
 
 Definition restore_files (allow_rec : bool) (fs : fsT) (files : list (path * N)) : fsT :=
-  fold_left (fun f pc => fst (restore_file f (fst pc) (snd pc) allow_rec)) files fs.
+  fold_left (fun f pc => if N.eqb (snd pc) bad_content then f
+                         else fst (restore_file f (fst pc) (snd pc) allow_rec)) files fs.
 
 Fixpoint mem_path (p : path) (l : list path) : bool :=
   match l with [] => false | x :: r => orb (path_eqb p x) (mem_path p r) end.
@@ -407,7 +444,18 @@ Definition restore_node (fs : fsT) (p : path) (e : entry) (chm : option N) : fsT
   | (fs1, Err) => fs1
   | (fs1, _) =>
       match create fs1 p e with
-      | (fs2, Ok) => match chm with Some m => chmod fs2 p m | None => fs2 end
+      | (fs2, Ok) => match chm with Some m => restore_meta fs2 p m | None => fs2 end
+      | (fs2, _) => fs2
+      end
+  end.
+
+(* restoreHardlinkAt: Remove, Link to the first location, metadata (on the shared inode) *)
+Definition restore_hardlink (fs : fsT) (old new : path) (m : N) : fsT :=
+  match remove fs new with
+  | (fs1, Err) => fs1
+  | (fs1, _) =>
+      match link fs1 old new with
+      | (fs2, Ok) => restore_meta (restore_meta fs2 new m) old m
       | (fs2, _) => fs2
       end
   end.
@@ -427,7 +475,7 @@ Definition remove_unexpected (sel : selT) (fs : fsT) (p loc : path) (keep : list
   end.
 
 Definition pass2_ev (o : opts) (sel : selT) (delete2 : bool) (T : path) (tracked : list path)
-           (fs : fsT) (e : ev) : fsT :=
+           (idx : list (N * path)) (fs : fsT) (e : ev) : fsT :=
   match e with
   | EvEnter _ => fs
   | EvVisit d nd loc =>
@@ -443,13 +491,23 @@ Definition pass2_ev (o : opts) (sel : selT) (delete2 : bool) (T : path) (tracked
           | Some true => restore_node fs p (ESpec mode_file_default) (Some m)
           | _ => fs
           end
-      | NFile _ _ m => if mem_path loc tracked then chmod fs p m else fs
+      | NFile _ _ m => if mem_path loc tracked then restore_meta fs p m else fs
+      | NHard _ _ m ino =>
+          match idx_find ino idx with
+          | Some v =>
+              if path_eqb v loc then (if mem_path loc tracked then restore_meta fs p m else fs)
+              else match should_overwrite o fs p with
+                   | Some true => restore_hardlink fs (T ++ v) p m
+                   | _ => fs
+                   end
+          | None => if mem_path loc tracked then restore_meta fs p m else fs
+          end
       | _ => fs
       end
   | EvLeave d mo loc keep =>
       let p := T ++ d in
       match (if delete2 then remove_unexpected sel fs p loc keep else (fs, Ok)) with
-      | (fs1, Ok) => match mo with Some m => chmod fs1 p m | None => fs1 end
+      | (fs1, Ok) => match mo with Some m => restore_meta fs1 p m | None => fs1 end
       | (fs1, _) => fs1
       end
   end.
@@ -458,10 +516,10 @@ Definition restore (o : opts) (sel : selT) (T : path) (tree : list node) (fs : f
   match mkdirall fs T with
   | (fs0, Ok) =>
       let t := traverse sel tree in
-      let s1 := fold_left (pass1_ev o T) (t_evs t) (mkP fs0 [] []) in
+      let s1 := fold_left (pass1_ev o T) (t_evs t) (mkP fs0 [] [] []) in
       let fs2 := restore_files (o_delete o) (p_fs s1) (p_files s1) in
       let delete2 := andb (o_delete o) (negb (t_invalid t)) in
-      fold_left (pass2_ev o sel delete2 T (p_tracked s1)) (t_evs t) fs2
+      fold_left (pass2_ev o sel delete2 T (p_tracked s1) (p_idx s1)) (t_evs t) fs2
   | (fs0, _) => fs0
   end.
 
